@@ -42,13 +42,21 @@ type childResult struct {
 	graphs  map[string][3]string
 	events  map[string][][2]string
 	stamps  map[string]string
+	wires   map[string]string
 	order   []string
 }
 
 var selfExe string
 
 func runChild(dir, mode, order string, graph, full bool, flags []string, timeout time.Duration) *childResult {
+	return runChildW(dir, mode, order, graph, full, false, flags, timeout)
+}
+
+func runChildW(dir, mode, order string, graph, full, wire bool, flags []string, timeout time.Duration) *childResult {
 	args := []string{"-child", mode, "-root", dir, "-order", order}
+	if wire {
+		args = append(args, "-wire")
+	}
 	if graph {
 		args = append(args, "-graph")
 	}
@@ -62,7 +70,7 @@ func runChild(dir, mode, order string, graph, full bool, flags []string, timeout
 	var stdout, stderr bytes.Buffer
 	cmd.Stdout, cmd.Stderr = &stdout, &stderr
 	cmd.Env = append(os.Environ(), "GOTRACEBACK=single", "HOME="+filepath.Dir(dir))
-	res := &childResult{status: "ok", fps: map[string]fpEntry{}, graphs: map[string][3]string{}, events: map[string][][2]string{}, stamps: map[string]string{}}
+	res := &childResult{status: "ok", fps: map[string]fpEntry{}, graphs: map[string][3]string{}, events: map[string][][2]string{}, stamps: map[string]string{}, wires: map[string]string{}}
 	if err := cmd.Start(); err != nil {
 		res.status, res.detail = "crash", "cannot start child: "+err.Error()
 		return res
@@ -107,6 +115,8 @@ func runChild(dir, mode, order string, graph, full bool, flags []string, timeout
 			res.events[f[1]] = append(res.events[f[1]], [2]string{f[2], f[3]})
 		case "R":
 			res.stamps[f[1]] = f[2]
+		case "W":
+			res.wires[f[1]] = f[2]
 		case "D":
 			sawDone = true
 		}
@@ -239,7 +249,7 @@ func judge(p *Program, dir string, r *rng, o judgeOpts, only *Mutation) {
 	}
 
 	// 1. load + fingerprint every target, in a child; extract the graphs for the model
-	a := runChild(dir, "fp", "fwd", o.corr, o.corr, p.Flags, o.timeout)
+	a := runChildW(dir, "fp", "fwd", o.corr, o.corr, true, p.Flags, o.timeout)
 	count("child_runs", 1)
 	if o.corr {
 		var lbls []string
@@ -301,6 +311,16 @@ func judge(p *Program, dir string, r *rng, o judgeOpts, only *Mutation) {
 		return
 	}
 
+	// 1b. the decoded environment is wired like the graph the fingerprint was computed from
+	for _, lbl := range a.order {
+		if wres, ok := a.wires[lbl]; ok {
+			count("decoded_wiring_checks", 1)
+			if wres != "ok" {
+				violation("decoded-miswired", featureOf(p, lbl), lbl, "decode(fingerprint) differs from the environment: "+wres, p, only)
+			}
+		}
+	}
+
 	// 2. a second load in another process, packages loaded in the opposite order: byte-equal fingerprints
 	b := runChild(dir, "fp", "rev", false, false, p.Flags, o.timeout)
 	count("child_runs", 1)
@@ -308,10 +328,21 @@ func judge(p *Program, dir string, r *rng, o judgeOpts, only *Mutation) {
 		violation("crash", firstFeature(p), "", "second load (reverse package order): "+b.status+" "+b.detail+b.loadErr, p, only)
 		return
 	}
+	// … and a third process (anything seeded per process, such as the hash of long strings, shows with probability
+	// 1 - 1/k! per pair of processes for k affected elements)
+	c3 := runChild(dir, "fp", "fwd", false, false, p.Flags, o.timeout)
+	count("child_runs", 1)
+	if c3.status != "ok" || c3.loadErr != "" {
+		violation("crash", firstFeature(p), "", "third load: "+c3.status+" "+c3.detail+c3.loadErr, p, only)
+		return
+	}
 	for _, lbl := range a.order {
-		count("determinism_comparisons", 1)
-		if a.fps[lbl].Sha != b.fps[lbl].Sha {
-			violation("nondeterministic", featureOf(p, lbl), lbl, fmt.Sprintf("two loads of the same text: %s (%s bytes) vs %s (%s bytes)", a.fps[lbl].Sha[:12], a.fps[lbl].Len, b.fps[lbl].Sha, b.fps[lbl].Len), p, only)
+		count("determinism_comparisons", 2)
+		for _, other := range []*childResult{b, c3} {
+			if a.fps[lbl].Sha != other.fps[lbl].Sha {
+				violation("nondeterministic", featureOf(p, lbl), lbl, fmt.Sprintf("two loads of the same text in two processes: %s (%s bytes) vs %s (%s bytes)", a.fps[lbl].Sha[:12], a.fps[lbl].Len, other.fps[lbl].Sha, other.fps[lbl].Len), p, only)
+				break
+			}
 		}
 	}
 
@@ -472,6 +503,7 @@ func main() {
 	order := flag.String("order", "", "")
 	graph := flag.Bool("graph", false, "")
 	full := flag.Bool("full", false, "")
+	wire := flag.Bool("wire", false, "")
 	cflags := flag.String("flags", "", "")
 	seed := flag.Uint64("seed", 1, "")
 	tier := flag.String("tier", "quick", "")
@@ -488,7 +520,7 @@ func main() {
 		if *cflags != "" {
 			fl = strings.Split(*cflags, "\x1f")
 		}
-		os.Exit(childMain(*child, *root, *order, *graph, *full, fl))
+		os.Exit(childMain(*child, *root, *order, *graph, *full, *wire, fl))
 	}
 	selfExe, _ = os.Executable()
 	cfgBits = *cfg
@@ -521,7 +553,7 @@ func main() {
 	}
 
 	start := time.Now()
-	limit := 45 * time.Second
+	limit := 40 * time.Second
 	nprog, maxMuts := 100000, 5
 	if *tier == "thorough" {
 		limit, maxMuts = 480*time.Second, 14
